@@ -35,6 +35,13 @@ CLAIMED = {
                      "callback starts for a call begun after unsubscribe returned. Partial: that is_subscribed is true until the first terminal/unsubscribe is judged by the oracle on implementation snapshots after "
                      "every driver action, not by a theorem. Tie: unsubscribe at every position (driver, from inside a callback, repeated, after terminals) over hot, cold and hand-driven sources; emitter threads racing an "
                      "unsubscribing thread under the scheduling runtime."),
+    "C06": dict(engine="coq-seq", design="DESIGN.md 6 C06",
+                technique="machine-checked proof in Coq (static discipline of every handler of the catalogue by case analysis; soundness of the discipline for the controller bookkeeping by induction over nested action lists) + differential correspondence with probe sources and subject observer counts",
+                text="Theorems C06_catalogue_disciplined / C06_handle_event_keeps_invariants / C06_ended_means_upstream_closed / C06_finalize_closes_everything: for every operator of the catalogue, every parameter, "
+                     "state, port and event, the handler never forgets an upstream entry whose observer is still subscribed; hence one controller's bookkeeping keeps 'subscribed implies registered' and "
+                     "'ended implies empty map' across any event, any early leave of the downstream during a delivery and any dynamic subscription, and an ended subscription has no subscribed upstream observer. "
+                     "Partial: the theorem is per node (one StreamController); that closure propagates through a whole pipeline tree (each upstream observer's teardown is the next controller's finalize) is checked on the "
+                     "model's final world of every generated scenario (closure_ok) and on the implementation by probes (is_subscribed seen by instrumented sources before every emission, subject observer counts), not proved globally."),
     "C08": dict(engine="coq-conc", design="DESIGN.md 6 C08",
                 technique="machine-checked proof in Coq (invariants of the queue transition system over all traces) + linearisation check of every observed call/return history against the extracted transition system under a deterministic scheduling runtime",
                 text="Theorems C08_queue_accounting / C08_no_start_after_abort / C08_worker_takes_front / C08_worker_exits_after_abort / C08_notifications_not_lost: for every trace of the queue "
